@@ -227,11 +227,39 @@ def check_new(case, ctx):
         raise Violation("C03/new/not-reproducible", "from_mnemonic(w.mnemonic, w.password) != w")
 
 
+CLI_COMMANDS = ("from-mnemonic", "from-entropy-hex", "from-bip39-seed", "from-master-xprv")
+
+
 def gen_cli(tier):
     ent = st.sampled_from([16, 20, 24, 28, 32]).flatmap(lambda n: st.binary(min_size=n, max_size=n))
     return st.fixed_dictionaries({"cmd": st.sampled_from(["from-mnemonic", "from-entropy-hex", "from-bip39-seed", "from-master-xprv"]),
                                   "entropy": ent, "pw": st.one_of(st.just(""), st.text(alphabet="abcXYZ019 é", min_size=1, max_size=8)),
-                                  "seed": st.binary(min_size=64, max_size=64), "testnet": st.booleans()})
+                                  "seed": st.binary(min_size=64, max_size=64), "testnet": st.booleans(),
+                                  "pw_form": st.sampled_from(PW_FORMS), "testnet_pos": st.sampled_from(["front", "front", "after-command", "end"])})
+
+
+# where and how the one passphrase option is written; the command may refuse a spelling (non-zero status, not judged),
+# but an accepted command line must build the wallet of the passphrase it was given
+PW_FORMS = ["after=", "after=", "after-two-tokens", "between-command-and-secret", "before-command=", "before-command-two-tokens",
+            "abbreviated"]
+
+
+def place_password(form, cmd_tokens, pw):
+    """cmd_tokens = [command, secret]; -> argv tail."""
+    if not pw:
+        return list(cmd_tokens)
+    two = not pw.startswith("-")
+    if form == "after-two-tokens" and two:
+        return cmd_tokens + ["--password", pw]
+    if form == "between-command-and-secret":
+        return cmd_tokens[:1] + ["--password=" + pw] + cmd_tokens[1:]
+    if form == "before-command=":
+        return ["--password=" + pw] + cmd_tokens
+    if form == "before-command-two-tokens" and two:
+        return ["--password", pw] + cmd_tokens
+    if form == "abbreviated":
+        return cmd_tokens + ["--pass=" + pw]
+    return cmd_tokens + ["--password=" + pw]
 
 
 def check_cli(case, ctx):
@@ -242,9 +270,9 @@ def check_cli(case, ctx):
     cmd, pw, testnet = case["cmd"], case["pw"], case["testnet"]
     sentence = R39.encode(case["entropy"])
     if cmd == "from-mnemonic":
-        seed, argv = R39.seed(sentence, pw), ["from-mnemonic", sentence] + (["--password=" + pw] if pw else [])
+        seed, argv = R39.seed(sentence, pw), place_password(case.get("pw_form", "after="), ["from-mnemonic", sentence], pw)
     elif cmd == "from-entropy-hex":
-        seed, argv = R39.seed(sentence, pw), ["from-entropy-hex", case["entropy"].hex()] + (["--password=" + pw] if pw else [])
+        seed, argv = R39.seed(sentence, pw), place_password(case.get("pw_form", "after="), ["from-entropy-hex", case["entropy"].hex()], pw)
     elif cmd == "from-bip39-seed":
         seed, argv = case["seed"], ["from-bip39-seed", case["seed"].hex()]
     else:
@@ -255,11 +283,19 @@ def check_cli(case, ctx):
         return
     if cmd == "from-master-xprv":
         argv = ["from-master-xprv", rm.xprv(R.TPRV if testnet else R.XPRV)]
-    argv = ["--interval", "0", "0"] + (["--testnet"] if testnet else []) + argv
+    tpos = case.get("testnet_pos", "front") if testnet else "front"
+    if tpos == "after-command" and argv[0] in CLI_COMMANDS:
+        argv = argv[:1] + ["--testnet"] + argv[1:]
+    elif tpos == "end":
+        argv = argv + ["--testnet"]
+    elif testnet:
+        argv = ["--testnet"] + argv
+    argv = ["--interval", "0", "0"] + argv
     r = cli.run_main(argv)
     if r["status"] != 0:
-        ctx.count("cli-rejected")
+        ctx.count("cli-rejected[pw %s, --testnet %s]" % (case.get("pw_form", "after=") if pw and cmd in ("from-mnemonic", "from-entropy-hex") else "-", tpos))
         return
+    ctx.count("cli-accepted[pw %s, --testnet %s]" % (case.get("pw_form", "after=") if pw and cmd in ("from-mnemonic", "from-entropy-hex") else "-", tpos))
     try:
         data = json.loads(r["out"])
         got = data["BIP44"]["account_extended_keys"]["prv"]
@@ -298,10 +334,13 @@ def clauses():
                n={"quick": 600, "thorough": 30000}, shards={"quick": 16, "thorough": 16}),
         Clause("cli-constructors", check_cli,
                "the four command-line constructors (mnemonic / entropy hex with passphrase, seed hex, master xprv) in "
-               "process: the BIP44 account key they print is the reference derivation from the reference master",
+               "process, the passphrase option and --testnet written in every position and spelling argparse could "
+               "accept (after / between / before the command, one or two tokens, abbreviated): a refused command line is "
+               "not judged, an accepted one must print the BIP44 account key of the reference master for exactly the "
+               "passphrase and network given",
                gen=gen_cli, nontrivial=lambda c: c["pw"] != "" or c["testnet"],
                classes=lambda c: [c["cmd"], "pw" if c["pw"] else "no-pw"],
-               n={"quick": 96, "thorough": 4000}, shards={"quick": 16, "thorough": 16}),
+               n={"quick": 192, "thorough": 4000}, shards={"quick": 16, "thorough": 16}),
         Clause("new-wallet", check_new,
                "new_wallet(words, passphrase, network): valid sentence, master equals the reference derivation of the "
                "sentence it reports, from_mnemonic(w.mnemonic, w.password) reproduces it",
